@@ -141,6 +141,7 @@ def prop_C03(run):
     rules_tab.tab_fmt(run)                      # panic-guarded parameter domains of the formatters (divisors nonzero) ...
     validators_agree(run)                       # ... against the validators the driver really applies
     rules_unit.line_column_counts(run)          # locating a diagnostic walks characters (no slicing at an arbitrary byte index)
+    rules_unit.const_str_slices(run)            # no text is sliced at a constant byte offset unless audited
     pc_ = run.anchor("TAB-cli", "driver::parse_command")
     if pc_:
         rules_tab.tab_cli_derive_when(run, pc_)  # every group that is written gets its file name, after all inputs are known
@@ -202,6 +203,7 @@ def prop_C08(run):
     rules_idx.sk_provider(run)
     rules_idx.sk_match_locals(run)
     rules_idx.sk_instruction_flag(run)
+    rules_idx.index_insert_unconditional(run)   # every rule is listed in the prefix index
     rules_idx.matcher_candidate_order(run)      # both matchers hand over candidates in declaration order (F75)
     run.rules_run += ["GATE who-touches audit of the two optimisation switches", "FIX3", "TAB-idx writer/reader/matcher agreement of the rule-prefix index", "SK conservativeness of is_value_statically_known per Expr variant"]
 
@@ -217,6 +219,7 @@ def prop_C07(run):
     rules_idx.brace_scan_by_tokens(run)
     rules_idx.lookahead_skips_comments(run)
     rules_idx.precedence_per_operand(run)
+    rules_idx.index_insert_unconditional(run)
     run.rules_run += ["TAB-idx (case normalisation, token classes, whitespace skipping)", "MATCH shape of match_with_rule / match_instr selection"]
 
 
@@ -328,6 +331,7 @@ def prop_C06(run):
     rules_mpt.bank_range_rules(run)
     rules_mpt.bank_overlap_rules(run)
     rules_mpt.alignment_rules(run)
+    rules_mpt.exact_unit_division(run)          # no position or size is rounded down to whole addresses unnoticed
     rules_mpt.full_loops(run, "asm::output::fill_banks", what="every bank definition")
     rules_mpt.full_loops(run, "asm::output::check_bank_overlap", what="every pair of banks")
     n = lim2_obligations(run, only=lambda key, f: bool(__import__("re").search(r"asm::output|overlap_checker|resolver::iter|bitvec::BitVec::write|resolver::(res|align|addr)::|defs::bankdef", key)))
@@ -381,6 +385,7 @@ def prop_C01(run):
     # R4: out-of-range arguments are rejected (tables of C04) and never bound unchecked
     rules_rng.range_tables(run)
     rules_rng.constrained_value_tested(run)
+    rules_mpt.exact_unit_division(run)
     reach = reach_roots(run)
     rules_err.err5(run, reach)
     run.rules_run += ["REJ no-match / tie / undefined symbol are errors on every path", "OVL overlapping output is rejected (neighbour comparisons)", "SYM lookup scope: too many dots find nothing", "PIPE phases in order behind their success edges", "MPT emission sites", "RNG range predicates", "ERR5 no rejection swallowed"]
